@@ -1336,3 +1336,45 @@ Proof.
   destruct (str_eqb (rfn r) nm_paragraph); [destruct (ralt r); [discriminate C | discriminate A]|].
   repeat split.
 Qed.
+
+(* ---- the line loop runs at most once per line: its fuel never decides the result ---------- *)
+Section Fuel.
+Context (cfg : bcfg) (rf cf : str -> str).
+
+Lemma tok_loop_fuel rec (R : rec_c rec) (ST : silent_terms cfg) (PA : mem_str nm_paragraph (c_rules cfg) = true) :
+  forall f1 f2 st line el hel st',
+  tok_loop cfg rf cf f1 rec st line el hel = Ok st' ->
+  0 <= line -> line <= b_lineMax st -> el <= b_lineMax st -> TI st ->
+  (Z.to_nat (el - line) < f2)%nat ->
+  tok_loop cfg rf cf f2 rec st line el hel = Ok st'.
+Proof.
+  induction f1 as [|f1 IH]; intros f2 st line el hel st' H L0 L1 L2 HT FB; [discriminate H|].
+  destruct f2 as [|f2]; [lia|].
+  cbn [tok_loop] in H |- *.
+  destruct (negb (line <? el)) eqn:NE; [exact H|].
+  cbv zeta in H |- *.
+  set (line1 := skip_empty_lines (S (Z.to_nat (b_lineMax st))) st line) in *.
+  destruct (skip_empty_spec (S (Z.to_nat (b_lineMax st))) st line) as [E1 E2]. specialize (E2 L1). fold line1 in E1, E2.
+  destruct (el <=? line1) eqn:EL; [exact H|].
+  destruct (tb (b_sCount (st_line st line1)) line1) as [sc|?|]; cbn [bind] in H |- *; try discriminate H.
+  destruct (sc <? b_blkIndent (st_line st line1)); [exact H|].
+  destruct (c_maxNesting cfg <=? b_level (st_line st line1)); [exact H|].
+  destruct (try_rules cfg rf cf rec (c_rules cfg) (st_line st line1) line1 el) as [st2|?|] eqn:TR; cbn [bind] in H |- *; try discriminate H.
+  pose proof TR as TR'. apply (try_rules_m cfg rf cf rec R ST) in TR'; [| |exact PA].
+  2: { split; [lia|]. split; [lia|]. split; [exact L2|]. split; [reflexivity | exact HT]. }
+  destruct TR' as (A1 & A2 & A3 & A4 & A5). cbn [b_lineMax st_line set] in A1, A2.
+  set (st3 := st2 <| b_tight := negb hel |>) in *.
+  change (b_line st3) with (b_line st2) in H |- *.
+  match type of H with bind ?m _ = _ => destruct m as [e1|?|] end; cbn [bind] in H |- *; try discriminate H.
+  match type of H with bind ?m _ = _ => destruct m as [e2|?|] eqn:E2' end; cbn [bind] in H |- *; try discriminate H.
+  destruct e2.
+  - assert (LT2 : b_line st2 < el) by (destruct (b_line st2 <? el) eqn:X; [lia | discriminate E2']).
+    eapply IH; [exact H | lia | | | exact A4 | lia].
+    + cbn. change (b_lineMax st3) with (b_lineMax st2). lia.
+    + cbn. change (b_lineMax st3) with (b_lineMax st2). lia.
+  - eapply IH; [exact H | lia | | | exact A4 | lia].
+    + change (b_lineMax st3) with (b_lineMax st2). lia.
+    + change (b_lineMax st3) with (b_lineMax st2). lia.
+Qed.
+
+End Fuel.
